@@ -26,6 +26,11 @@ pub enum WOp {
     Compare { v: u8, a: Vec<u8>, b: Vec<u8>, nolen: bool },
     /// max_distance for both modes
     MaxDist { v: u8 },
+    /// length code of a 32-bit length: FuzzyHashLengthEncoding::new / try_from / range / is_valid, DataLengthValidity
+    Length { v: u8, len: u32 },
+    /// (hooked builds only) finalize a generator whose bucket counts are given explicitly: values that only
+    /// multi-GiB inputs reach (>= 2^24, >= 2^31, near 2^32) and ties at the quartiles, through the state seam
+    StateFin { v: u8, class: u8, seed: u64, n: u32, o: u8 },
 }
 
 const BODY_CLASSES: [&[u8]; 6] = [
@@ -103,8 +108,49 @@ pub fn draw_op(r: &mut Rng) -> WOp {
             };
             WOp::Compare { v, a, b, nolen: r.chance(1, 3) }
         }
-        _ => WOp::MaxDist { v },
+        98 => WOp::MaxDist { v },
+        _ => {
+            if cfg!(feature = "hooks") && r.chance(2, 3) {
+                WOp::StateFin { v, class: r.below(6) as u8, seed: r.next_u64(), n: *r.pick(&[50u32, 1000, 1 << 24, 1 << 31, 4_224_281_216, 4_000_000_000]), o: if r.chance(1, 2) { 30 } else { 28 } }
+            } else {
+                let len = match r.below(6) {
+                    0 => r.below(700),
+                    1 => r.next_u64() & 0xffff_ffff,
+                    2 => 1u64 << r.below(32),
+                    3 => (1u64 << r.below(32)).wrapping_sub(1),
+                    4 => 4_224_281_216 - 2 + r.below(5),
+                    _ => *r.pick(&[0u64, 1, 2, 3, 5, 7, 11, 17, 25, 38, 57, 656, 657, 3171, 3172, 4_224_281_216, 4_294_967_295]),
+                };
+                WOp::Length { v, len: len as u32 }
+            }
+        }
     }
+}
+
+/// Explicit bucket arrays for StateFin.
+pub fn state_buckets(class: u8, seed: u64) -> [u32; 256] {
+    let mut r = Rng::new(seed);
+    let mut b = [0u32; 256];
+    let base: u64 = match class {
+        0 => 100,
+        1 => 1 << 24,
+        2 => (1 << 31) - 8,
+        3 => (1u64 << 32) - 64,
+        4 => 1 << 31,
+        _ => 40_000_000,
+    };
+    for x in b.iter_mut() {
+        let v = match r.below(8) {
+            0 => 0,
+            1..=3 => base + r.below(16),          // many ties around the quartiles
+            4 => base.wrapping_sub(r.below(16)),
+            5 => r.next_u64() & 0xffff_ffff,
+            6 => base,
+            _ => base / 2 + r.below(5),
+        };
+        *x = v as u32;
+    }
+    b
 }
 
 fn hash_of<K: Kind>(raw: &[u8]) -> Option<K::H> {
@@ -219,12 +265,67 @@ fn exec<K: Kind>(op: &WOp) -> String {
             <K::H as FuzzyHashType>::max_distance(ComparisonConfiguration::Default),
             <K::H as FuzzyHashType>::max_distance(ComparisonConfiguration::NoLength)
         ),
+        WOp::Length { len, .. } => {
+            use tlsh::length::{DataLengthProcessingMode, DataLengthValidity, FuzzyHashLengthEncoding};
+            let e = FuzzyHashLengthEncoding::new(*len);
+            let t = FuzzyHashLengthEncoding::try_from(*len);
+            let v = match K::BUCKETS {
+                48 => DataLengthValidity::new::<48>(*len),
+                128 => DataLengthValidity::new::<128>(*len),
+                _ => DataLengthValidity::new::<256>(*len),
+            };
+            format!(
+                "length {:?} {:?} range={:?} valid={:?} {:?} err={} errc={}",
+                e.map(|x| x.value()),
+                t.map(|x| x.value()),
+                e.and_then(|x| x.range()),
+                e.map(|x| x.is_valid()),
+                v,
+                v.is_err(),
+                v.is_err_on(DataLengthProcessingMode::Conservative)
+            )
+        }
+        WOp::StateFin { class, seed, n, o, .. } => state_fin::<K>(*class, *seed, *n, *o),
     }
+}
+
+#[cfg(feature = "hooks")]
+fn state_fin<K: Kind>(class: u8, seed: u64, n: u32, o: u8) -> String {
+    // concrete dispatch: the VerifState bound cannot be expressed through `Kind` without the hooked build
+    use tlsh::generate::{Generator, VerifState};
+    let b = state_buckets(class, seed);
+    let len = n.saturating_sub(4);
+    let tail = [1u8, 2, 3, 4];
+    let ck = [(seed >> 8) as u8 % 49, (seed >> 16) as u8, (seed >> 24) as u8];
+    macro_rules! go {
+        ($t:ty) => {{
+            let g = <Generator<$t> as VerifState>::verif_from_state(&b, len, tail, 4, ck);
+            format!("statefin {} | {}", render(&g.finalize_with_options(&options(o))), render(&g.finalize_with_options(&options(o ^ 2))))
+        }};
+    }
+    match K::ID {
+        0 => go!(tlsh::hashes::Short),
+        1 => go!(tlsh::hashes::Normal),
+        2 => go!(tlsh::hashes::NormalWithLongChecksum),
+        3 => go!(tlsh::hashes::Long),
+        _ => go!(tlsh::hashes::LongWithLongChecksum),
+    }
+}
+#[cfg(not(feature = "hooks"))]
+fn state_fin<K: Kind>(_class: u8, _seed: u64, _n: u32, _o: u8) -> String {
+    "statefin: needs the hooked build".into()
 }
 
 pub fn variant_of(op: &WOp) -> u8 {
     match op {
-        WOp::Gen { v, .. } | WOp::Parse { v, .. } | WOp::Binary { v, .. } | WOp::Format { v, .. } | WOp::Compare { v, .. } | WOp::MaxDist { v } => *v,
+        WOp::Gen { v, .. }
+        | WOp::Parse { v, .. }
+        | WOp::Binary { v, .. }
+        | WOp::Format { v, .. }
+        | WOp::Compare { v, .. }
+        | WOp::MaxDist { v }
+        | WOp::Length { v, .. }
+        | WOp::StateFin { v, .. } => *v,
     }
 }
 
@@ -237,7 +338,7 @@ pub fn exec_op(op: &WOp) -> String {
 pub fn cells_of(op: &WOp) -> u8 {
     let v = variant_of(op);
     match op {
-        WOp::Gen { .. } => match v {
+        WOp::Gen { .. } | WOp::StateFin { .. } => match v {
             0 => 1,
             1 | 2 => 2,
             _ => 4,
@@ -261,6 +362,8 @@ pub fn op_json(op: &WOp) -> Value {
         WOp::Format { v, raw, delta, prefix } => json!({"op":"format","v":v,"raw":hex(raw),"delta":delta,"prefix":prefix}),
         WOp::Compare { v, a, b, nolen } => json!({"op":"compare","v":v,"a":hex(a),"b":hex(b),"nolen":nolen}),
         WOp::MaxDist { v } => json!({"op":"maxdist","v":v}),
+        WOp::Length { v, len } => json!({"op":"length","v":v,"len":len}),
+        WOp::StateFin { v, class, seed, n, o } => json!({"op":"statefin","v":v,"class":class,"seed":seed.to_string(),"n":n,"o":o}),
     }
 }
 pub fn op_from(j: &Value) -> Result<WOp, String> {
@@ -280,6 +383,14 @@ pub fn op_from(j: &Value) -> Result<WOp, String> {
         "format" => WOp::Format { v, raw: raw("raw")?, delta: j["delta"].as_i64().ok_or("delta")? as i8, prefix: j["prefix"].as_bool().ok_or("prefix")? },
         "compare" => WOp::Compare { v, a: raw("a")?, b: raw("b")?, nolen: j["nolen"].as_bool().ok_or("nolen")? },
         "maxdist" => WOp::MaxDist { v },
+        "length" => WOp::Length { v, len: j["len"].as_u64().ok_or("len")? as u32 },
+        "statefin" => WOp::StateFin {
+            v,
+            class: j["class"].as_u64().ok_or("class")? as u8,
+            seed: j["seed"].as_str().ok_or("seed")?.parse::<u64>().map_err(|e| e.to_string())?,
+            n: j["n"].as_u64().ok_or("n")? as u32,
+            o: j["o"].as_u64().ok_or("o")? as u8,
+        },
         o => return Err(format!("unknown op {o}")),
     })
 }
@@ -330,7 +441,7 @@ pub fn shrink_op(op: &WOp) -> Vec<WOp> {
                 out.push(WOp::Binary { v: *v, raw: vec![0; 69], len_delta: *len_delta });
             }
         }
-        WOp::MaxDist { .. } => {}
+        WOp::MaxDist { .. } | WOp::Length { .. } | WOp::StateFin { .. } => {}
     }
     out
 }
